@@ -82,15 +82,29 @@ impl RefTable {
     }
 
     /// Create a clone that covers at least `at_least_index`
-    pub fn clone_and_grow(&self, clusters: usize, cluster_size: usize, bs: usize) -> Self {
+    ///
+    /// `clusters` is the size of the table on disk. If the clone doesn't
+    /// fit into these clusters it gets no offset, and the caller has to
+    /// find a new place for it.
+    pub fn clone_and_grow(
+        &self,
+        at_least_index: usize,
+        clusters: usize,
+        cluster_size: usize,
+        bs: usize,
+    ) -> Self {
         let entry_size = core::mem::size_of::<RefTableEntry>();
         let ram_size = self.data.len() * entry_size;
+        let min_size = (at_least_index + 1) * entry_size;
 
         //table in ram may not reach end of reftable in disk
-        let (new_size, new_off) = if ram_size + entry_size < clusters * cluster_size {
-            (ram_size + entry_size, self.offset)
+        let (new_size, new_off) = if min_size <= clusters * cluster_size {
+            (clusters * cluster_size, self.offset)
         } else {
-            (clusters * cluster_size + bs, None)
+            (
+                std::cmp::max(ram_size + bs, min_size.div_ceil(bs) * bs),
+                None,
+            )
         };
 
         let mut new_data = Qcow2IoBuf::<RefTableEntry>::new(new_size);
